@@ -340,3 +340,7 @@ Definition sp_memory_percent (c : option Z) (value : Z) (k : kernel) : option Z 
   let t := if reread then sp_total k else default0 c in
   (if reread then Some (sp_total k) else c,
    if 0 <? t then Val (value * 100, t) else Exc ValueError).
+
+(* the same kernel state without a readable /proc/zoneinfo *)
+Definition no_zone (k : kernel) : kernel :=
+  {| k_mem := k_mem k; k_zone := None; k_vm := k_vm k; k_pagesize := k_pagesize k; k_sysinfo := k_sysinfo k |}.
